@@ -19,6 +19,7 @@ import (
 	"hash/fnv"
 	"os"
 	"path/filepath"
+	"runtime"
 	"sort"
 	"strings"
 	"sync"
@@ -312,5 +313,26 @@ func Watch(test, key string, limit time.Duration, c func() any, fn func()) {
 		}
 	}()
 	defer close(done)
+	fn()
+}
+
+// Guard runs fn; a panic that is not rapid's own control flow (raised by
+// Fatalf / Skip inside a property) is reported as a failure of the case
+// under key+"/panic": a panic that escapes the library is a violation of
+// every property checked here.
+func Guard(t TB, test, key string, c func() any, fn func()) {
+	defer func() {
+		r := recover()
+		if r == nil {
+			return
+		}
+		switch fmt.Sprintf("%T", r) {
+		case "rapid.stopTest", "rapid.invalidData":
+			panic(r)
+		}
+		buf := make([]byte, 8192)
+		buf = buf[:runtime.Stack(buf, false)]
+		Fail(t, test, key+"/panic", c(), "panic: %v\n%s", r, buf)
+	}()
 	fn()
 }
